@@ -4,7 +4,7 @@
 From Coq Require Import List NArith Bool Arith Sorted.
 From Coq Require Import Strings.Byte.
 Require Import BS.Bytes BS.Common BS.Api BS.Layout BS.Format BS.FormatFacts BS.Spec BS.SpecStep BS.Sections BS.ExtractFacts.
-Require Import BS.FS BS.FSFacts BS.Meta BS.MetaFacts BS.Header BS.Reader BS.ReaderFacts BS.Index BS.Data BS.DataFacts BS.Seek BS.Series BS.SeriesFacts BS.ReadAllFacts BS.TotalFacts BS.OpenFacts BS.CacheFacts BS.CacheOpenFacts BS.HistoryFacts.
+Require Import BS.FS BS.FSFacts BS.Meta BS.MetaFacts BS.Header BS.Reader BS.ReaderFacts BS.Index BS.Data BS.DataFacts BS.Seek BS.Series BS.SeriesFacts BS.ReadAllFacts BS.TotalFacts BS.OpenFacts BS.CacheFacts BS.CacheOpenFacts BS.TornGenFacts BS.CacheCreateFacts BS.HistoryFacts.
 Import ListNotations.
 
 
@@ -85,6 +85,34 @@ Theorem C09_repair_adds_nothing : forall p B, B > 0 -> forall fs (src down:data)
   add_missing_data src down (N.of_nat B) cb fs = (fs, Ok down).
 Proof. exact add_missing_aligned. Qed.
 Print Assumptions C09_repair_adds_nothing.
+
+(* (I refines S) "a cache that is missing is brought back to exactly that state on open; intact caches stay byte-identical":
+   open of an intact series with cache levels that are, in ANY mix, present and aligned (level_on_disk: the files hold the bucket
+   means of the source, whole buckets only) or missing (level_missing: neither file exists): afterwards the invariant RepS
+   holds for the same lines with every level - a missing level was re-created by one pass over the source and is exactly the
+   cache an uninterrupted session would hold (means of all complete buckets on disk, the open bucket in the accumulator); every
+   file that existed before is untouched, byte for byte; only the missing levels' files appear. Every payload size under nm_sec. *)
+Theorem C09_missing_levels_recreated : forall p fs name uhdr popt hdropt cb l (Bs:list N),
+  let header := params_to_text BSgen.Consts.version (N.of_nat p) ++ uhdr in
+  wf_series p l -> Forall (nm_sec p) (secs_of l) ->
+  (len header <= 65535)%N -> (len (encode p l) < 2^64)%N -> (N.of_nat p < 2^64)%N ->
+  fs_get fs (name ++ ext_data) = Some (outer header ++ encode p l) ->
+  fs_get fs (name ++ ext_index) = Some (outer [] ++ enc_index (sections p (encode p l))) ->
+  (popt = None \/ popt = Some (N.of_nat p)) ->
+  match hdropt with HdrIs e => e = uhdr | HdrAny => True end ->
+  Forall (fun B => level_on_disk p fs name l B \/ level_missing fs name B) Bs ->
+  NoDup ([name ++ ext_data; name ++ ext_index] ++ flat_map (cache_names name) Bs) ->
+  exists fs' s, builder_open name popt hdropt Bs cb fs = (fs', Ok (s, uhdr))
+    /\ RepS fs' s p (outer header) (outer []) l (map (open_spec name) Bs) /\ s_cb s = cb
+    /\ of_name (d_file (s_data s)) = name ++ ext_data /\ of_name (ix_file (d_index (s_data s))) = name ++ ext_index
+    /\ map cache_files (s_down s) = map (cache_names name) Bs
+    /\ (forall g, fs_mem fs g = true \/ ~ In g (flat_map (cache_names name) Bs) -> fs_get fs' g = fs_get fs g)
+    /\ Forall2 (fun ds B =>
+         fs_get fs' (cache_name name B ++ ext_data) = Some (outer (config_header name B) ++ encode p (cache_of p (N.to_nat B) l))
+         /\ fs_get fs' (cache_name name B ++ ext_index)
+            = Some (outer [] ++ enc_index (sections p (encode p (cache_of p (N.to_nat B) l))))) (s_down s) Bs.
+Proof. exact builder_open_mixed. Qed.
+Print Assumptions C09_missing_levels_recreated.
 (* partial: reopen at a line count that is not a multiple of a bucket size, and every damaged state of the caches, are outside
    these theorems: there the library deviates (known finding D10: the repair resumes after the MEAN timestamp of the last bucket
    and the open bucket is reset) and the judge reports it as KNOWN-FINDING. Payload sizes 0..3 with 0xFFFF continuation words: D6. *)
